@@ -141,7 +141,33 @@ pub fn check_packets(record: &[u8], stream: &[u8], cuts: &[usize], v4: bool) -> 
         other => return Err(fail!("packets:single-segment-not-reported", "{:?}", other.map(|o| o.is_some()))),
     };
     let segs = split(stream, cuts);
-    let frames = seg_frames(&ip, 40001, 443, 5000, &segs);
+    let plain = seg_frames(&ip, 40001, 443, 5000, &segs);
+    // the same segments as they look on the wire: Ethernet frames padded with zeros to the 60-byte minimum, and (third pass)
+    // additionally followed by a 4-byte frame check sequence - bytes behind the IP datagram are not TCP payload
+    for wire in 0..3u8 {
+        if wire > 0 && !(wire == 2 || plain.iter().any(|f| f.len() < 60)) {
+            continue;
+        }
+        let frames: Vec<Vec<u8>> = plain
+            .iter()
+            .map(|f| {
+                let mut f = f.clone();
+                if wire > 0 && f.len() < 60 {
+                    f.resize(60, 0);
+                }
+                if wire == 2 {
+                    f.extend_from_slice(&[0xde, 0xad, 0xbe, 0xef]);
+                }
+                f
+            })
+            .collect();
+        check_packets_frames(record, &reference, &segs, &frames, cuts).map_err(|f| if wire == 0 { f } else { Fail::new(format!("{}:{}", f.what, if wire == 1 { "frames-padded-to-60-bytes" } else { "frames-with-padding-and-fcs" }), f.detail) })?;
+    }
+    Ok(())
+}
+
+fn check_packets_frames(record: &[u8], reference: &str, segs: &[Vec<u8>], frames: &[Vec<u8>], cuts: &[usize]) -> Result<(), Fail> {
+    let reference = reference.to_string();
     let mut flows = ttl_cache::TtlCache::new(16);
     let mut delivered = 0usize;
     let mut reported = 0;
